@@ -26,10 +26,23 @@ def schemaInRange (S : Schema) : Bool :=
     (List.range (S.dfa t).size).all (fun q =>
       ((S.dfa t).edgesOf q).all (fun e => e.1 < S.nodes.size && e.2 < (S.dfa t).size)))
 
+/-- `TextLoop` (Proofs/TokValid.lean), restricted to the states that exist: reading a text leads to a state in which a
+    further text stays put -/
+def schemaTextLoop (S : Schema) : Bool :=
+  (List.range S.nodes.size).all (fun t =>
+    (List.range (S.dfa t).size).all (fun q =>
+      match (S.dfa t).matchType q S.textTy with
+      | some q1 => (S.dfa t).matchType q1 S.textTy == some q1
+      | none => true))
+
+/-- `compatTransB` (PM/UndoGuard.lean): compatible_content is transitive on this schema -/
+def schemaCompatTrans (S : Schema) : Bool := compatTransB S
+
 def handleHyps (st : St) (op : String) (j : Json) : Option (D (St × Json)) :=
   match op with
   | "schemaHyps" => some do
     let S ← getSchema st j
     return (st, ok (Json.mkObj [("det", Json.bool (schemaDet S)), ("live", Json.bool (schemaLive S)),
-      ("inRange", Json.bool (schemaInRange S))]))
+      ("inRange", Json.bool (schemaInRange S)),
+      ("textLoop", Json.bool (schemaTextLoop S)), ("compatTrans", Json.bool (schemaCompatTrans S))]))
   | _ => none
